@@ -47,3 +47,5 @@ def run_all():
         pass
     from translate import grammar_balance
     grammar_balance.generate()
+    from translate import layout_edits
+    layout_edits.generate()
